@@ -246,6 +246,38 @@ def main() -> int:
     w.nat("uint32_size", len(m_hdd.c_hdd.uint32))
     w.end("hdd")
 
+    # ---------------- VHDX
+    from dissect.hypervisor.disk import c_vhdx as m_vhdx
+    cx = m_vhdx.c_vhdx
+    w.ns("vhdx")
+    w.struct("file_identifier", cx.file_identifier, ["signature"])
+    w.struct("header", cx.header, ["signature", "sequence_number"])
+    w.struct("region_table_header", cx.region_table_header, ["signature", "entry_count"])
+    w.struct("region_table_entry", cx.region_table_entry, ["guid", "file_offset", "length", "required"])
+    w.struct("bat_entry", cx.bat_entry, ["state", "file_offset_mb"])
+    w.struct("metadata_table_header", cx.metadata_table_header, ["signature", "entry_count"])
+    w.struct("metadata_table_entry", cx.metadata_table_entry, ["item_id", "offset", "length", "is_required"])
+    w.struct("file_parameters", cx.file_parameters, ["block_size", "has_parent"])
+    w.struct("virtual_disk_id", cx.virtual_disk_id, ["virtual_disk_id"])
+    w.struct("parent_locator_header", cx.parent_locator_header, ["locator_type", "key_value_count"])
+    w.struct("parent_locator_entry", cx.parent_locator_entry, ["key_offset", "value_offset", "key_length", "value_length"])
+    for tname in ("virtual_disk_size", "logical_sector_size", "physical_sector_size"):
+        t = getattr(cx, tname)
+        w.nat(f"{tname}_width", len(t))
+    for cname in ("PAYLOAD_BLOCK_NOT_PRESENT", "PAYLOAD_BLOCK_UNDEFINED", "PAYLOAD_BLOCK_ZERO", "PAYLOAD_BLOCK_UNMAPPED",
+                  "PAYLOAD_BLOCK_FULLY_PRESENT", "PAYLOAD_BLOCK_PARTIALLY_PRESENT"):
+        w.nat(cname, getattr(cx, cname))
+    w.nat("ALIGNMENT", get(m_vhdx, "ALIGNMENT"))
+    w.nat("MB", get(m_vhdx, "MB"))
+    for g in ("BAT_REGION_GUID", "METADATA_REGION_GUID", "FILE_PARAMETERS_GUID", "VIRTUAL_DISK_SIZE_GUID", "VIRTUAL_DISK_ID_GUID",
+              "LOGICAL_SECTOR_SIZE_GUID", "PHYSICAL_SECTOR_SIZE_GUID", "PARENT_LOCATOR_GUID", "VHDX_PARENT_LOCATOR_GUID"):
+        w.bytes(g, guid_bytes_le(get(m_vhdx, g)))
+    from dissect.hypervisor.disk import vhdx as m_vhdxpy
+    w.raw("def METADATA_MAP_KEYS : List (List UInt8) := [" + ", ".join(
+        "[" + ", ".join(str(b) for b in k.bytes_le) + "]" for k in m_vhdxpy.MetadataTable.METADATA_MAP) + "]")
+    w.fp["vhdx.METADATA_MAP_KEYS"] = [k.bytes_le.hex() for k in m_vhdxpy.MetadataTable.METADATA_MAP]
+    w.end("vhdx")
+
     extra = HERE / "extract_more.py"
     if extra.exists():
         ns = {}
